@@ -28,7 +28,8 @@ CORR_ONLY = ["interior rounding-level overshoot / backward steps (accepted up to
              "the 1% extrapolation zone: values and derivatives compared against the model, no monotonicity claim there"]
 ASSUMPTIONS = ["unit factors x_dim/f_dim are compared on tables whose products with the factor are exact in double "
                "(float32 tables and factors): the model multiplies exactly, the C++ rounds each product",
-               "query points are kept a relative margin >= 2^-50 (8.9e-16) away from the 1% extrapolation boundary: the code forms the "
+               "the exact one-percent edge is requested (meaningful since fix a411065) on tables where 0.01*h, the edge and |x-x_0| are exact "
+               "doubles; all other query points are kept a relative margin >= 2^-50 (8.9e-16) away from the 1% extrapolation boundary: the code forms the "
                "boundary as fl(1e-2*fl(x_1-x_0)) and compares fl(|x-x_0|) with it, which decides correctly only beyond ~3e-16 relative",
                "interior rounding-level overshoot and backward steps are inherent to evaluating the cubic a*t^3+b*t^2+c*t+d in doubles "
                "and are accepted up to 32 eps*max(|y_j|,|y_j+1|): the audit measured <= 21.6 eps*Yj (overshoot, 3.99% of 2.2e7 interior "
@@ -420,6 +421,38 @@ def generate(tier, seed, ctx):
             continue
         pre = [(rng.uniform(xs[0], xs[-1]), -1) for _ in range(rng.randint(0, 3))]
         R.append(req_1d("c01.evalx", "zone", xs, ys, -1.0, -1.0, 1.0, 1.0, pre + [(x, rng.choice([-1, 0, 1, 2, 3, 4]))]))
+    # ---- the EXACT one-percent edge (fix a411065: only arguments outside by MORE than one percent are rejected).  Tables
+    #      whose end spacing h makes 0.01*h exact in double (h = 100, 25, 6.25 times 2^k) on dyadic end abscissae: the edge
+    #      x_0 - h/100 (x_{N-1} + h/100) is a double, fl(1e-2*h) and fl(|x - x_0|) are exact, so the decision taken in
+    #      doubles IS the exact one: the edge itself is a meaningful request, its outward neighbour is not.
+    for k in range(120 if thorough else 24):
+        N = rng.randint(3, 9)
+        e2 = rng.randint(-8, 8)
+        h0 = rng.choice([100.0, 25.0, 6.25]) * 2.0 ** e2; h1 = rng.choice([100.0, 25.0, 6.25]) * 2.0 ** rng.randint(-8, 8)
+        x = rng.choice([0.0, float(rng.randint(-64, 64)) * 2.0 ** e2])
+        xs = [x, x + h0]
+        for _ in range(N - 3):
+            xs.append(xs[-1] + rng.choice([1.0, 3.0, 7.5, 100.0]) * 2.0 ** rng.randint(-4, 4))
+        xs.append(float(math.ceil(xs[-1])) + h1) if k % 2 else xs.append(xs[-1] + h1)
+        if not all(Fraction(b) - Fraction(a) > 0 for a, b in zip(xs, xs[1:])):
+            continue
+        ys = gen_ys(rng, xs, rng.choice(["smooth", "monotone", "signchange", "plateau"]))
+        for side in (-1, 1):
+            xe, hh = (xs[0], xs[1] - xs[0]) if side < 0 else (xs[-1], xs[-1] - xs[-2])
+            tol = 0.01 * hh
+            edge = xe + side * tol
+            ok_exact = (Fraction(hh) == Fraction(xs[1]) - Fraction(xs[0]) if side < 0 else Fraction(hh) == Fraction(xs[-1]) - Fraction(xs[-2])) \
+                and Fraction(tol) == Fraction(hh) / 100 and Fraction(edge) == Fraction(xe) + side * Fraction(tol) \
+                and Fraction(edge - xe) == Fraction(edge) - Fraction(xe)
+            if not ok_exact:
+                continue
+            beyond = na(edge, side * INF)
+            if Fraction(beyond - xe) != Fraction(beyond) - Fraction(xe):
+                beyond = None
+            pref, mul = pick_pref(rng)
+            R.append(req_1d("c01.evalx", "edge", xs, ys, -1.0, -1.0, pref, mul, [(edge, c) for c in (-1, 0, 1, 2, 3, 4)]))
+            if beyond is not None:
+                R.append(req_1d("c01.evalx", "zone", xs, ys, -1.0, -1.0, 1.0, 1.0, [(beyond, rng.choice([-1, 0, 1, 2, 3]))]))
     for k in range(12 if thorough else 6):
         N = rng.randint(3, 8)
         xs = gen_xs(rng, N, "jitter"); ys = gen_ys(rng, xs, "smooth")
@@ -678,6 +711,16 @@ def oracle_1d(P, vals, ctx):
             fx = Fraction(x)
             if v is not None:
                 fv = Fraction(v)
+                if not inside:
+                    # the 1% zone (closed at the edge): the excursion beyond the end value is at most 10151/500000 of the
+                    # last step of the data (theorem extrapolation_zone_bound), plus the rounding of the evaluation
+                    yend, step = (Y[0], abs(Y[1] - Y[0])) if x < xs[0] else (Y[N - 1], abs(Y[N - 1] - Y[N - 2]))
+                    exc = abs(fv - Fraction(pref) * yend)
+                    ctx["nontrivial"].add(("zone-bound", x < xs[0], P["tag"] == "edge"))
+                    worst(ctx, "worst_zone_excursion_over_step", float(exc / (step * ap)) if step * ap else 0.0)
+                    if exc > Fraction(10151, 500000) * step * ap + K_VAL * EPS * Yj * ap:
+                        out.append(fail("prop", "1% zone: excursion beyond the end value exceeds 2.0302% of the last step of the data",
+                                        "x=%r value=%r end value*prefactor=%r" % (x, v, float(Fraction(pref) * yend))))
                 # knots
                 # "returns each tabulated value at its abscissa": bit-for-bit at EVERY knot, the last one included
                 if x == xs[j]:
